@@ -258,7 +258,7 @@ fn hostleg_violations(property: &str) -> usize {
             .and_then(|v| v.get("violations").and_then(|x| x.as_array()).map(|a| a.len()))
             .unwrap_or(0)
     };
-    count(file) + if property == "C14" { count("e2eleg.json") } else { 0 }
+    count(file) + if property == "C14" { count("e2eleg.json") } else { count("e2edet.json") }
 }
 
 fn spawn_worker(property: &str, tier: &str, mask: Option<&str>) -> Child {
